@@ -58,10 +58,10 @@ def many_subs(k: int, choices: str) -> Iterator[str]:
 def items(tier: str) -> List[str]:
     out: List[str] = []
     if tier == "quick":
-        srcs = itertools.chain(raw.space(4, 2), raw.programs(5, 2, raw.PLAIN_SMALL), many_subs(4, "full"), many_subs(6, "few"), raw.dead_code())
+        srcs = itertools.chain(raw.space(4, 2), raw.programs(5, 2, raw.PLAIN_SMALL), many_subs(4, "full"), many_subs(6, "few"), raw.dead_code(), raw.sub_bodies(6))
     else:
         srcs = itertools.chain(
-            raw.space(5, 2), raw.programs(6, 2, raw.PLAIN_SMALL), raw.space(4, 3), many_subs(4, "full"), many_subs(5, "full"), many_subs(6, "few"), raw.dead_code()
+            raw.space(5, 2), raw.programs(6, 2, raw.PLAIN_SMALL), raw.space(4, 3), many_subs(4, "full"), many_subs(5, "full"), many_subs(6, "few"), raw.dead_code(), raw.sub_bodies(7)
         )
     seen: Set[str] = set()
     for s in srcs:
